@@ -253,3 +253,10 @@ package ast
 //@   ensures  [schema;C13] old(n.interpreter != nil && typeis[parsley.StaticChecker](n.interpreter)) && err == nil ==> n.schema == callres[interface{}](1, 0)
 //@   ensures  [no-checker;C13] old(n.interpreter == nil || !typeis[parsley.StaticChecker](n.interpreter)) ==> ncalls() == 0 && err == nil && n.schema == old(n.schema)
 //@   assigns  fields[parsley.Node]()
+
+//@ functype ast.InterpreterFunc(userCtx interface{}, node parsley.NonTerminalNode) (v interface{}, err parsley.Error)
+//@   include parsley.Interpreter.Eval
+//@ func (f InterpreterFunc) Eval(userCtx interface{}, node parsley.NonTerminalNode) (v interface{}, err parsley.Error)
+//@   props C13
+//@   requires f != nil
+//@   include parsley.Interpreter.Eval
